@@ -106,7 +106,7 @@ theorem toI64_fmtInt (n : Int) (h : n.natAbs ≤ I64_MAX) : Scalar.toI64 (fmtInt
   · have hv := toU64T2_fmtNat n.natAbs hU
     have h45 : isDigit 45 = false := by decide
     simp only [fmtInt, hneg, if_true, toI64, toI64T, h45, toI64Go, hv]
-    have : ¬ n.natAbs > I64_MAX := by omega
+    have : ¬ n.natAbs > I64_MIN_ABS := by simp only [I64_MIN_ABS, I64_MAX] at *; omega
     simp [this, requireEmpty]; omega
   · obtain ⟨h1, h2⟩ := fmtNat_val n.natAbs
     cases hs : fmtNat n.natAbs with
